@@ -509,6 +509,23 @@ def radial_mapping_case(c):
             der = np.empty((nz, nq))
             S.parGrad.parallel_gradient(phi_r, i, der)
             out[r0 + i] = der.tobytes().hex()
+        # the same object built on other layouts of the same process grid in which r is not the first dimension and the
+        # ordering is not its own inverse (the class only reads the radial block of the layout it is given)
+        from pygyro.model.layout import Layout
+        from pygyro.advection.advection import ParallelGradient
+        rk = comm.Get_rank()
+        crd = [rk // nprocs[1], rk % nprocs[1]]
+        f = S.f
+        for nm, order, eta in (('z-r-theta', [2, 0, 1], f.eta_grid[:3]), ('theta-z-r', [1, 2, 0], f.eta_grid[:3]), ('v-r-z-theta', [3, 0, 2, 1], f.eta_grid)):
+            if any(p > len(eta[d]) for p, d in zip(nprocs, order)):
+                continue
+            LX = Layout(nm, list(nprocs), order, eta, crd)
+            PG = ParallelGradient(f.getSpline(1), eta, LX, S.constants)
+            rs = int(LX.starts[LX.inv_dims_order[0]])
+            for i in range(int(LX.shape[LX.inv_dims_order[0]])):
+                der = np.empty((nz, nq))
+                PG.parallel_gradient(phi_r, i, der)
+                out['%s:%d' % (nm, rs + i)] = der.tobytes().hex()
         return out
     R = MPI.run(nprocs[0] * nprocs[1], work, seed=seed, timeout=600)
     if R.outcome != 'ok':
@@ -543,11 +560,11 @@ def radial_mapping_stage(chk):
         if base is None:
             continue
         for rk, out in enumerate(r[1]):
-            bad = [R for R, h in out.items() if base[R] != h]
+            bad = [R for R, h in out.items() if base[R if isinstance(R, int) else int(R.split(':')[1])] != h]
             if bad:
                 chk.violation('advection.ParallelGradient:local-radius-mapping',
                               'npts=%r grid=%r rank %d: parallel_gradient for global radii %r differs from the serial object (a table is indexed with the wrong radius)'
-                              % (npts, g, rk, sorted(bad)[:6]), {'kind': 'impl', 'case': list(c), 'rank': rk, 'radii': sorted(bad)})
+                              % (npts, g, rk, sorted(bad, key=str)[:6]), {'kind': 'impl', 'case': list(c), 'rank': rk, 'radii': sorted(bad, key=str)})
                 break
 
 def run():
